@@ -255,7 +255,9 @@ fn main() {
             if loc.file().starts_with("src/") && HARNESS_FILES.contains(&base) && !loc.file().contains("weak/") {
                 let p = info.payload();
                 let msg = p.downcast_ref::<&'static str>().map(|s| s.to_string()).or_else(|| p.downcast_ref::<String>().cloned()).unwrap_or_default();
-                if msg != "ccmc-injected-fault" && msg != "ccmc-closure-panic" && msg != "warm-up" {
+                // (`#[track_caller]` attributes the crate's specified panics to the calling harness line)
+                let specified = msg.starts_with("Cc::finalize_again cannot be called") || msg.starts_with("Too many references");
+                if msg != "ccmc-injected-fault" && msg != "ccmc-closure-panic" && msg != "warm-up" && !specified {
                     eprintln!("HARNESS-PANIC at {}:{}: {}", loc.file(), loc.line(), msg);
                 }
             }
